@@ -269,6 +269,25 @@ def run(F, R):
                     pre.setdefault(t["name"], []).append(nd.idx)
     R.check("C06-R4", "session-before-loop", "session_id" in pre and "add_update_check" in pre, "session_id/add_update_check/add_ping applied before the loop: %s" % sorted(pre),
             "session id or update-check payload is not set before the attempt loop: %s" % sorted(pre))
+    # ---------------------------------------------------------------- R6 one send per built request outside the loop
+    R.rule("C06-R6", "outside the attempt loop every request value is handed to the sending function by one call site only (event reports and pings are sent once): within one function invocation no two send call sites receive the same RequestBuilder value")
+    sends = [n for n in S.nodes if n.idx in S.live and n.term["k"] == "call" and (n.term.get("name") == "do_omaha_request_and_update_context") and not smod.is_logging_span(n.term["sp"])]
+    if R.floor("C06-R6", "call sites of the sending function", len(sends), 3):
+        groups = {}
+        ordn = {}
+        for nd in sends:
+            args = nd.term["args"]
+            term = strip(S.trace(nd, args[1])) if len(args) > 1 else ("undef",)
+            groups.setdefault((id(nd.ctx), repr(term)), []).append((nd, term))
+        for (cx, _), pairs in sorted(groups.items(), key=lambda kv: kv[1][0][0].loc()):
+            nds = [p[0] for p in pairs]
+            term = pairs[0][1]
+            sites = sorted(set(n.bi for n in nds))
+            fn = nds[0].ctx.bv.body.get("item") or nds[0].ctx.bv.id.split("::")[-2]
+            inl = any(n.idx in L for n in nds)
+            ordn[fn] = ordn.get(fn, 0) + 1
+            R.check("C06-R6", "one-send-site:%s:%s" % (fn, "loop" if inl else "#%d" % ordn[fn]), len(sites) == 1,
+                    "request value sent from one call site", "the same request value is handed to the sending function at %d call sites of one invocation: %s" % (len(sites), [n.loc() for n in nds]), nds[0].loc())
     # ---------------------------------------------------------------- R5 metrics
     R.rule("C06-R5", "RequestsPerCheck carries the attempt counter and is reported exactly once after the loop; UpdateCheckResponseTime is reported in every iteration after the send")
     rpc = sm.metrics(S, "RequestsPerCheck")
